@@ -258,3 +258,20 @@ def big_graphs(rng):
         es = [(perm[u], perm[v], w) for (u, v, w) in es]; rng.shuffle(es)
         out.append((n, es))
     return out
+
+
+def random_connected_sparse(rng, n, extra):
+    """a random spanning tree on n vertices plus `extra` random further edges (cycle space dimension <= extra), unit weights"""
+    perm = list(range(n)); rng.shuffle(perm)
+    es = set()
+    for i in range(1, n):
+        j = rng.randrange(i); a, b = perm[i], perm[j]; es.add((min(a, b), max(a, b)))
+    tries = 0
+    while extra > 0 and tries < 200:
+        tries += 1
+        a, b = rng.randrange(n), rng.randrange(n)
+        if a == b or (min(a, b), max(a, b)) in es: continue
+        es.add((min(a, b), max(a, b))); extra -= 1
+    el = [(u, v, 1) for (u, v) in es]; rng.shuffle(el)
+    el = [(v, u, w) if rng.random() < 0.5 else (u, v, w) for (u, v, w) in el]
+    return (n, el)
